@@ -254,6 +254,8 @@ def gen_leaves(ctx):
         ens = ens_names[e]
         nrep = rng.choice([1, 2, 3])
         names = ['%s|r%d' % (ens, i + 1) for i in range(nrep)] if (nrep > 1 or rng.random() < 0.6) else [ens]
+        if nrep > 1 and rng.random() < 0.25:
+            names[0] = ens      # a first replica called exactly like the ensemble, further ones added later as 'ens|r2'
         base = {}
         for n in names:
             ln = rng.randint(8, 36)
